@@ -541,6 +541,9 @@ def F_graph(ctx, server):
                     ins.add(flow.last(a))
     ctx.ob(rule, "worklist.both-children", ins == {"lo", "hi"}, where=b.where(), expected="both lo and hi of every member are examined", found=sorted(ins))
     reach_only_roots_and_children(ctx, server, rule, b, d)
+    # nothing is dropped or reordered on the way into the four collections: the only element-selecting adaptors are the recognised filters
+    bad = S.lossy_calls(server, b)
+    ctx.ob(rule, "no-element-dropped", not bad, where=b.where(), expected="no skip / take / rev / sort ... in from_adf_and_ac", found=bad[:3])
     seed = None
     for bb, t, ci in b.calls():
         e = d.expr_call(t, bb)
